@@ -27,12 +27,12 @@ func init() {
 		ID:    "C18",
 		Level: "fault_enumeration",
 		Rule: "configurations = inputs {formatted, unformatted, unparsable, empty, 150 KB unformatted} x modes {-w on an .evy file, -w on a .txtar with evy members, -w on two files of which the " +
-			"second is unparsable, -c on a file, -c on the file followed by a formatted file, -c on stdin, no flag} x permission bits {0644, 0755, 0666, 0600, 0444, 0777, 0664 (quick: 0644, 0755, 0666)} under umask 022. For each configuration: a baseline run under strace -f -y " +
+			"second is unparsable, -c on a file, -c on the file followed by a formatted file, -c / -w on archives whose last member is already formatted, -c / -w on an archive whose last evy member lacks its final newline, -c on an archive whose last text member lacks it, -c on stdin, no flag} x permission bits {0644, 0755, 0666, 0600, 0444, 0777, 0664 (quick: 0644, 0755, 0666)} under umask 022. For each configuration: a baseline run under strace -f -y " +
 			"collects the ordered list L of file-system syscalls that touch the scratch directory (by path or by descriptor); then for EVERY element of L and every errno in {ENOSPC, EIO, " +
 			"EACCES} one run with that call failing, and for EVERY element of L one run killed (SIGKILL) on entry to that call. Coverage is verified from the strace log ((INJECTED) / killed " +
 			"marker on the intended call); an element that cannot be hit after retries is listed as a gap and makes the run exhaustive:false. Oracle after every run: target bytes = original " +
 			"or fully formatted; mode bits unchanged; unparsable input => bytes unchanged and exit != 0; an injected failure exits != 0 unless the target already holds the formatted text; -c " +
-			"exits 0 iff input == Format(input) and modifies nothing. Non-trivial = runs with an injected fault.",
+			"exits 0 iff input == Format(input) (an archive: iff it equals, byte for byte, what -w would write, including the final newline txtar completes) and modifies nothing. Non-trivial = runs with an injected fault.",
 		Assumptions: []string{"the process is killed, the machine is not: data written before the kill is in the page cache and counts as written (no power-loss model)",
 			"strace can fake a syscall's return value but cannot make the kernel perform a partial write", "faults in non-file syscalls are not injected"},
 		TrustedBase:   []string{"strace 6.1 -e inject", "Program.Format of the working tree computes the expected formatted text (its correctness is C06/C07's business)"},
@@ -135,6 +135,15 @@ func c18Setup(cfg c18Config) (*c18Files, error) {
 		if cfg.Mode == "c-txtar-lastok" {
 			f.args = []string{"fmt", "-c", "a.txtar"}
 		}
+	case "c-txtar-nonl", "w-txtar-nonl": // the evy member comes last and lacks its final newline (txtar.Parse completes it)
+		err = write("a.txtar", "comment\n-- note.txt --\nx:=1 stays\n-- one.evy --\n"+strings.TrimSuffix(content, "\n"))
+		f.args = []string{"fmt", "-c", "a.txtar"}
+		if cfg.Mode == "w-txtar-nonl" {
+			f.args = []string{"fmt", "-w", "a.txtar"}
+		}
+	case "c-txtar-textnonl": // the evy member is the input under test, the last (non-evy) member lacks its final newline
+		err = write("a.txtar", "comment\n-- one.evy --\n"+content+"-- note.txt --\nno final newline")
+		f.args = []string{"fmt", "-c", "a.txtar"}
 	case "w-two":
 		if err = write("a.evy", content); err == nil {
 			err = write("b.evy", c18Content("unparsable"))
@@ -386,7 +395,12 @@ func c18Oracle(c c18Case, f *c18Files, res *straceResult, viol func(sig, what, e
 	input := c18Content(cfg.Input)
 	want, parses := formatted(input)
 	switch cfg.Mode {
-	case "c", "c-stdin", "c-two", "c-txtar-lastok":
+	case "c", "c-stdin", "c-two", "c-txtar-lastok", "c-txtar-nonl", "c-txtar-textnonl":
+		if orig, isArchive := f.files["a.txtar"]; isArchive {
+			// an archive is in formatted form exactly when fmt -w would write it back byte for byte
+			want, parses = c18Formatted("a.txtar", orig)
+			input = orig
+		}
 		if c.Fault == "" {
 			wantExit := 1
 			if parses && want == input {
@@ -401,7 +415,7 @@ func c18Oracle(c c18Case, f *c18Files, res *straceResult, viol func(sig, what, e
 		} else if res.exit == 0 && !(parses && want == input) {
 			return viol("check-exit-status-under-fault", "evy fmt -c reported success for input that is not formatted", "non-zero", "0")
 		}
-	case "w", "w-txtar", "w-two", "w-txtar-lastok":
+	case "w", "w-txtar", "w-two", "w-txtar-lastok", "w-txtar-nonl":
 		anyUnparsable := !parses || cfg.Mode == "w-two"
 		if c.Fault == "" {
 			if anyUnparsable && res.exit == 0 {
@@ -425,11 +439,18 @@ func c18Oracle(c c18Case, f *c18Files, res *straceResult, viol func(sig, what, e
 func c18Formatted(name, orig string) (string, bool) {
 	if strings.HasSuffix(name, ".txtar") {
 		// members: format each evy member; any unparsable member makes the archive untouchable
+		// (txtar.Format completes the missing final newline of the comment and of every non-empty member)
+		fixNL := func(s string) string {
+			if s != "" && !strings.HasSuffix(s, "\n") {
+				return s + "\n"
+			}
+			return s
+		}
 		parts := strings.Split(orig, "-- ")
-		out := parts[0]
+		out := fixNL(parts[0])
 		for _, p := range parts[1:] {
 			nl := strings.Index(p, "\n")
-			header, body := p[:nl+1], p[nl+1:]
+			header, body := p[:nl+1], fixNL(p[nl+1:])
 			fname := strings.TrimSuffix(strings.TrimSpace(header), " --")
 			if strings.HasSuffix(fname, ".evy") {
 				fb, ok := formatted(body)
@@ -454,7 +475,7 @@ func runC18(w *fw.Worker) {
 	}
 	var cfgs []c18Config
 	for _, in := range []string{"unformatted", "formatted", "unparsable", "empty", "large"} {
-		for _, mode := range []string{"w", "w-txtar", "w-txtar-lastok", "w-two", "c", "c-two", "c-txtar-lastok", "c-stdin", "none"} {
+		for _, mode := range []string{"w", "w-txtar", "w-txtar-lastok", "w-txtar-nonl", "w-two", "c", "c-two", "c-txtar-lastok", "c-txtar-nonl", "c-txtar-textnonl", "c-stdin", "none"} {
 			for pi, perm := range perms {
 				if pi > 0 && (mode != "w" && mode != "w-txtar" || w.Quick() && in != "unformatted") {
 					continue // permission variants matter where a file is replaced
@@ -462,7 +483,7 @@ func runC18(w *fw.Worker) {
 				if in == "large" && mode != "w" && mode != "c" {
 					continue
 				}
-				if w.Quick() && strings.HasSuffix(mode, "-lastok") && in != "unformatted" && in != "formatted" {
+				if w.Quick() && (strings.HasSuffix(mode, "-lastok") || strings.HasSuffix(mode, "nonl")) && in != "unformatted" && in != "formatted" {
 					continue // quick tier: the archive variants for the two inputs that decide the verdict
 				}
 				cfgs = append(cfgs, c18Config{in, mode, perm})
